@@ -16,10 +16,10 @@
      K02_py_multiline_docstring / K02_py_triple_in_string: triple-quote syntaxes (opener = closer made of
                                  quote characters) are outside block_head_ok (needle_is_multiquote = false) (D4, D27)
    Nesting block comments (Rust, Swift), Lua long brackets and one-line triple-quote blocks have their own
-   line theorems below (C02_nested_*, C02_lua_block_open, C02_selfclosing_block_line); they are proved at the
-   level of lines / line lists and are not (yet) constructors of the whole-program grammar. *)
+   line theorems below (C02_nested_*, C02_lua_block_open, C02_selfclosing_block_line) and are constructors of the
+   extended program grammar of Counter/Program2.v (C02_ground_truth_ext, C02_counts_ext). *)
 From Coq Require Import NArith List Bool.
-From SG Require Import Counter.Lexer Counter.Sloc Counter.Proofs_C04 Counter.Truth Counter.Proofs_C02 Counter.ProofsNest Gen.Gen_Registry.
+From SG Require Import Counter.Lexer Counter.Sloc Counter.Proofs_C04 Counter.Truth Counter.Proofs_C02 Counter.ProofsNest Counter.Program2 Gen.Gen_Registry.
 Import ListNotations.
 Open Scope N_scope.
 
@@ -265,3 +265,55 @@ Proof.
   cbn. unfold opens, closes. cbn. repeat split; try reflexivity; discriminate.
 Qed.
 Print Assumptions C02_nested_nonvacuous.
+
+(* ---- the extended grammar: pieces = the simple pieces + nesting blocks + Lua long-bracket blocks +
+        one-line self-closing blocks; ignore regions hold whole pieces ---- *)
+Theorem C02_ground_truth_ext : forall (sy : syntax) (prog : list item2) (st : lstate),
+  wf_syntax sy = true -> idle st -> Forall (valid_item2 sy) prog ->
+  classes sy (render_program2 prog) st = truth_program2 prog /\
+  idle (state_after sy (render_program2 prog) st).
+Proof. exact program2_ok. Qed.
+Print Assumptions C02_ground_truth_ext.
+
+Theorem C02_counts_ext : forall (sy : syntax) (prog : list item2),
+  wf_syntax sy = true -> Forall (valid_item2 sy) prog ->
+  Forall (fun l => has_ignore_file sy l = false) (render_program2 prog) ->
+  count_lines sy (render_program2 prog) stats0 st0 = Some (tally (truth_program2 prog) stats0).
+Proof. exact program2_counts. Qed.
+Print Assumptions C02_counts_ext.
+
+(* non-vacuity of the extended grammar: a Rust-like program with a nested block over three lines inside
+   an ignore-start/end region followed by code, and a Lua program with a level-2 long bracket whose text
+   holds a level-0 closer *)
+Definition rs_syntax : syntax := {| single := [[47;47]]; multi := [rblock] |}.
+Definition demo_rs : list item2 :=
+  [ IgnoreBlock2 [47;47;32;115;108;111;99;45;103;117;97;114;100;58;105;103;110;111;114;101;45;115;116;97;114;116]
+      [ PNested [32] rblock [NText [32]; NOpen; NText [32;120]] [[NText [97;32]; NClose]; [NClose]] ]
+      [47;47;32;115;108;111;99;45;103;117;97;114;100;58;105;103;110;111;114;101;45;101;110;100];
+    Piece (Base (PCode [] [Plain [105;110;116]])) ].
+Definition luablock : mlc := {| ml_start := [45;45;91;91]; ml_end := [93;93]; ml_nest := false; ml_linestart := false; ml_kind := LuaLong |}.
+Definition lua_syntax : syntax := {| single := [[45;45]]; multi := [luablock] |}.
+Definition demo_lua : list item2 :=
+  [ Piece (PLua [] luablock 2 [45;45;91;61;61;91;32;97] [[120;32;93;93;32;121]] [98;32] []);
+    Piece (Base (PCode [] [Plain [120]])) ].
+Example C02_ext_nonvacuous :
+  Forall (valid_item2 rs_syntax) demo_rs /\
+  truth_program2 demo_rs = [Comment; Ignored; Ignored; Ignored; Comment; Code] /\
+  Forall (valid_item2 lua_syntax) demo_lua /\
+  truth_program2 demo_lua = [Comment; Comment; Comment; Code].
+Proof.
+  split; [|split; [reflexivity|split; [|reflexivity]]].
+  - unfold demo_rs, valid_item2, valid_piece, valid_simple, first_opener, line_ok, nest_markers_ok,
+      ign_start_line, ign_end_line.
+    repeat (apply Forall_cons || apply Forall_nil || split);
+      try (vm_compute; reflexivity); try (vm_compute; discriminate);
+      try (exists [], []; split; [reflexivity|intros ? []]);
+      try (intros _; vm_compute; discriminate);
+      try (repeat constructor; vm_compute; reflexivity).
+  - unfold demo_lua, valid_item2, valid_piece, valid_simple, first_opener.
+    repeat (apply Forall_cons || apply Forall_nil || split);
+      try (vm_compute; reflexivity); try (vm_compute; discriminate);
+      try (exists [], []; split; [reflexivity|intros ? []]);
+      try (repeat constructor; vm_compute; reflexivity).
+Qed.
+Print Assumptions C02_ext_nonvacuous.
